@@ -196,6 +196,21 @@ def verify_state(spec, d, out, when):
                 pass
             except Exception as e:  # noqa: BLE001
                 v.append(("unavailable-wrong-error", f"{when}: {dt} unavailable, but loading raised {e!r} instead of DataNotAvailable", e))
+        # the same directory seen through a read-only frontend (a reader sharing the directory) must agree
+        try:
+            ro = hrun.make_context(spec, [strax.DataDirectory(d, readonly=True)], {"processor": "single_thread"},
+                                   forbid_creation_of=("*",))
+            ro_st = ro.is_stored("0", dt)
+            if ro_st != (dt in stored):
+                v.append(("readonly-view-differs", f"{when}: {dt} is {'stored' if dt in stored else 'unavailable'} for the writer's "
+                                                   f"frontend but {'stored' if ro_st else 'unavailable'} through a read-only frontend", None))
+            elif ro_st:
+                with common.quiet():
+                    got = ro.get_array("0", dt, progress_bar=False)
+                if not oracle.rows_equal(got, out[dt]):
+                    v.append(("stored-wrong", f"{when}: read-only frontend loads {got.tolist()} for {dt} instead of {out[dt].tolist()}", None))
+        except Exception as e:  # noqa: BLE001
+            v.append(("readonly-view-crashed", f"{when}: looking at {dt} through a read-only frontend raised {e!r}", e))
     return v, stored
 
 
